@@ -28,11 +28,15 @@ const propID = "C04"
 type confDim struct {
 	Workers   int  `json:"workers"`
 	Seencheck bool `json:"seencheck"`
+	// TempInJob: --warc-temp-dir names the job directory itself (spool files next to the queue and the WARC directory)
+	TempInJob bool `json:"warc_temp_dir_is_the_job_dir,omitempty"`
 }
 
-func (d confDim) name() string { return fmt.Sprintf("w%d seencheck=%v", d.Workers, d.Seencheck) }
+func (d confDim) name() string {
+	return fmt.Sprintf("w%d seencheck=%v", d.Workers, d.Seencheck) + map[bool]string{true: " warc-temp-dir=job-dir", false: ""}[d.TempInJob]
+}
 
-var confs = []confDim{{1, true}, {2, true}, {1, false}, {2, false}}
+var confs = []confDim{{Workers: 1, Seencheck: true}, {Workers: 2, Seencheck: true}, {Workers: 1, Seencheck: false}, {Workers: 2, Seencheck: false}}
 
 // caseSpec is one history: first run ended by a kill or a graceful stop, second run drains.
 type caseSpec struct {
@@ -124,7 +128,11 @@ func site(o *e2e.Origin, hold *e2e.Hold) []e2e.LQRow {
 }
 
 func conf(d confDim) e2e.Conf {
-	return e2e.Conf{Job: "c04", Workers: d.Workers, MaxConcurrentAssets: 1, MaxHops: 1, MaxRetry: 1, WARCPoolSize: 1, DisableSeencheck: !d.Seencheck}
+	c := e2e.Conf{Job: "c04", Workers: d.Workers, MaxConcurrentAssets: 1, MaxHops: 1, MaxRetry: 1, WARCPoolSize: 1, DisableSeencheck: !d.Seencheck}
+	if d.TempInJob {
+		c.WARCTempDir = "jobs/c04"
+	}
+	return c
 }
 
 // ---------------------------------------------------------------- one history
@@ -312,6 +320,11 @@ func runHistory(cs caseSpec, profile bool, keepDir string) (v verdict) {
 		}
 		if cs.Kind == "pwkill" {
 			v.Violations = append(v.Violations, violation{"queue-database-unreadable-after-kill", fmt.Sprintf("lq.db cannot be read after the kill: %v", err)})
+			return v
+		}
+		if _, serr := os.Stat(filepath.Join(dir, "jobs", c.Job, "lq.db")); os.IsNotExist(serr) {
+			// the harness created the queue database before the run: it is gone, and every unfinished seed with it
+			v.Violations = append(v.Violations, violation{"queue-database-gone-after-the-first-run", fmt.Sprintf("lq.db (pre-loaded before the first run) does not exist after it: no unfinished seed can be resumed (%v)", err)})
 			return v
 		}
 		hkit.EngineError("reading lq.db after the first run: %v", err)
@@ -542,6 +555,10 @@ func buildCases(tier string, profiles, preStop map[string]map[string]int64) []ca
 		}
 		j++
 	}
+	// the operator's --warc-temp-dir is the job directory itself: what a graceful stop clears away must be spool files only
+	for _, mn := range []string{e2e.DrainedMoment, "finisher after MarkAsFinished, before the finish message", "archiver takes an item (before client.Do)"} {
+		out = append(out, caseSpec{Conf: confDim{Workers: 1, Seencheck: false, TempInJob: true}, Kind: "stop", Moment: mn, Occ: 1, Label: "1", Quick: quick})
+	}
 	return out
 }
 
@@ -584,7 +601,10 @@ func pwriteCases(tier string) []caseSpec {
 			return nil
 		}
 		if len(v.Violations) > 0 {
-			hkit.EngineError("the logged history of %s is not clean: %+v", d.name(), v.Violations)
+			// the undisturbed history is itself a violation: the stop histories (same moment, same configuration)
+			// report it; killing at the page writes of such a run would only repeat it
+			pwriteNote = fmt.Sprintf("page-write kills NOT run for %s: its undisturbed history already violates the property (%s), see the stop histories", d.name(), v.Violations[0].Sig)
+			continue
 		}
 		if tier != "thorough" && n > 64 {
 			n = 64 // quick: the start-up reset, the first claims and the first deletes; thorough: every write of every configuration
